@@ -408,7 +408,7 @@ def run(run):
                 'on every ' + ('13th' if quick else '997th') + ' serial, below 130 and in the last 100 days), DATE(y,m,d); distinct by TLC fingerprint; '
                 'non-trivial = expected result determined')
     run.exhaustive = True
-    run.assumptions += ['serial 60, serial 0, negative serials, WEEKDAY/ISOWEEKNUM below serial 61, results reached across '
+    run.assumptions += ['serial 60, serial 0, negative serials, WEEKDAY/ISOWEEKNUM below serial 61, day differences and day carries across '
                         'February 1900, dates as text, DATEDIF MD/YM/YD, 30/360 with a day 29-31 or the end of February, '
                         'YEARFRAC basis 1 across calendar years, DATE results outside 1..2958465 are left open',
                         'the observed double is compared with relative tolerance 1e-9 (exact in trace validation after '
